@@ -252,6 +252,12 @@ func (core *JApiCore) checkPathSchemaPropertyUserType(typeName string) error {
 		return fmt.Errorf(`%s (%s)`, jerr.UserTypeNotFound, typeName)
 	}
 
+	if _, ok := ut.Schema.(*catalog.ExchangePseudoSchema); ok {
+		// The user type with the any or empty notation has no AST and, like in
+		// any other schema, cannot be referred to.
+		return fmt.Errorf(`%s (%s)`, jerr.UserTypeNotFound, typeName)
+	}
+
 	rootNode, err := ut.Schema.GetAST()
 	if err != nil {
 		return errors.New(jerr.RuntimeFailure)
